@@ -89,6 +89,8 @@ def judge_components_from_metric(j, M, tol, result, exc, mon='C20.cfm'):
     w = np.sort(np.diag(M))
   tol_eff = tol if tol is not None else np.abs(w).max() * d * EPS
   band = 0.1 * tol_eff + 64 * d * EPS * nM
+  if np.array_equal(M, np.diag(np.diag(M))):
+    band = 0.0      # the spectrum of a diagonal matrix is exact
   lam = w.min()
   # --- symmetry clause
   # (np.allclose: |a-b| <= 1e-8 + 1e-5|b|; matrices that are symmetric up to
@@ -107,7 +109,7 @@ def judge_components_from_metric(j, M, tol, result, exc, mon='C20.cfm'):
             {'lambda_min': lam, 'tol_eff': tol_eff,
              'got': type(exc).__name__ if exc else 'returned'})
     return
-  if abs(lam + tol_eff) < band:
+  if band > 0 and abs(lam + tol_eff) < band:
     # (also lam slightly above -tol: with tol = 0 the computed sign of a
     # zero eigenvalue is rounding noise)
     j.skip(mon, 'eigenvalue-near-minus-tol')
@@ -383,3 +385,36 @@ def judge_components_init(j, n_components, inp, y, init, random_state,
       except Exception as e:   # reference itself not computable
         detail['lda_ref_error'] = repr(e)[:100]
   j.check(mon + '.option-' + (init if init != 'auto' else 'auto'), ok, detail)
+
+
+def judge_check_sdp(j, w, tol, result, exc, mon='C20.sdp'):
+  """Documented rule of _check_sdp_from_eigen on an exact spectrum."""
+  from metric_learn.exceptions import NonPSDError
+  w = np.asarray(w, dtype=float)
+  t = tol if tol is not None else np.abs(w).max() * len(w) * EPS
+  det = {'w': w, 'tol': tol, 'tol_eff': t,
+         'got': type(exc).__name__ if exc else result}
+  if np.any(w < -t):
+    j.check(mon + '.rejects', isinstance(exc, NonPSDError), det)
+  elif exc is not None:
+    j.violated(mon + '.accepts', det)
+  else:
+    j.check(mon + '.definite-flag', bool(result) == bool(not np.any(
+        np.abs(w) < t)), det)
+
+
+def judge_pinv_from_eig(j, w, V, tol, result, exc, mon='C20.pinv'):
+  """V diag(1/w_i if |w_i| > tol else 0) V^T, tol defaulting to
+  max(w) * n * eps."""
+  w = np.asarray(w, dtype=float)
+  t = tol if tol is not None else np.amax(w) * len(w) * EPS
+  if exc is not None:
+    j.violated(mon, {'raised': type(exc).__name__, 'w': w, 'tol': tol})
+    return
+  n = len(w)
+  ref = np.zeros((n, n))
+  for i in range(n):
+    if abs(w[i]) > t:
+      ref += np.outer(V[:, i], V[:, i]) / w[i]
+  sc = max(np.abs(ref).max(), 1e-300)
+  j.close(mon, np.asarray(result), ref, 1e-12 * sc * n, {'w': w, 'tol': tol})
